@@ -16,6 +16,11 @@ NAN = float("nan")
 
 
 def _malformed(kind, n):
+    if kind.startswith("nan@"):
+        i = int(kind[4:])
+        v = [0.3] * n
+        v[i % n] = NAN
+        return np.array(v)
     return {
         "nan": np.array([0.3] * (n - 1) + [NAN]),
         "too-long": np.array([0.1] * (n + 1)),
@@ -153,6 +158,10 @@ def configs(tier):
         add(N=4, M=0, action="sym", delay=d, inject_at=2, cash_in_space=True)
         for kind in ("nan", "too-long", "too-short", "none", "string"):
             add(N=4, M=0, action=kind, delay=d, inject_at=1 + d)
+        # NaN in every position of a space that contains the cash contract (weights and contracts mode)
+        for i in (0, 1, 2):
+            add(N=4, M=0, action="nan@%d" % i, delay=d, inject_at=1, cash_in_space=True, two_contracts=True)
+        add(N=4, M=0, action="nan@0", delay=d, inject_at=1, cash_in_space=True, as_weights=False)
         for kind in ("idx-neg", "idx-n", "idx-float", "idx-array", "idx-ok1", "idx-ok3"):
             add(N=4, M=0, action=kind, delay=d, inject_at=1, space="discrete", cash_in_space=(d == 1))
     add(N=4, M=0, action="sym", delay=0, inject_at=1, two_contracts=True, cash_in_space=True, low=0.0, high=1.0)
